@@ -373,7 +373,8 @@ def ClosedOnTerminationWithoutExitReportsStatement : Prop :=
 def ExitDelivery (s : Sys) (h' : List Event) : Prop :=
   ∀ ev ∈ h', (∃ n, ev = Event.completions n) ∨ (∃ p, ev = Event.exited p ∧ p ∈ s.terminated)
 
-/-- **Closed on termination** (full statement; TRUE since the repair of F10). Every resource still
+/-- **Closed on termination** (full statement; TRUE of the code as it is, since the repair of F10 in
+/repo 5cb2956). Every resource still
 registered to a process that has terminated is eventually closed without anybody awaiting the
 process: there is a well-formed continuation consisting only of deliveries of what the workers have
 already emitted — here: the `ProcessExited` of that process — after which the backend no longer
